@@ -317,14 +317,26 @@ pub fn run(tier: Tier, _replay: Option<Value>) -> ! {
         ("indexed-hole", "T=([1]=a [3]='b c' [7]=d)"),
         ("assoc-one", "declare -A T=([k]='b c')"),
         ("empty-array", "T=()"),
+        // lists whose only element(s) are empty strings: "null" for the colon operators is about the expansion
+        // as a whole, not the number of elements
+        ("positional-one-empty", "set -- ''; T=@"),
+        ("positional-star-one-empty", "set -- ''; T=*"),
+        ("positional-two-empty", "set -- '' ''; T=@"),
+        ("positional-star-two-empty", "set -- '' ''; T=*"),
+        ("indexed-one-empty", "T=('')"),
+        ("indexed-star-one-empty", "T=('')"),
+        ("indexed-hole-one-empty", "T=([3]='')"),
+        ("assoc-one-empty", "declare -A T=([k]='')"),
+        ("assoc-star-one-empty", "declare -A T=([k]='')"),
+        ("indexed-star", "T=(a 'b c' '' d)"),
     ];
-    let aforms = ["${#X}", "${X:1}", "${X:1:2}", "${X: -1}", "${X:0:1}", "${X:2:0}", "${X:9}", "${X:0:-1}", "${X#a}", "${X%c}", "${X/b/Q}", "${X//b/Q}", "${X^^}", "${X@Q}", "${X@U}", "${X@A}", "${X@a}", "${!X}", "${X-d}", "${X:+alt}", "${X:-d}", "\"${X:1:2}\"", "\"${X#a}\"", "\"${X@Q}\""];
+    let aforms = ["${#X}", "${X:1}", "${X:1:2}", "${X: -1}", "${X:0:1}", "${X:2:0}", "${X:9}", "${X:0:-1}", "${X#a}", "${X%c}", "${X/b/Q}", "${X//b/Q}", "${X^^}", "${X@Q}", "${X@U}", "${X@A}", "${X@a}", "${!X}", "${X-d}", "${X:+alt}", "${X:-d}", "\"${X:1:2}\"", "\"${X#a}\"", "\"${X@Q}\"", "${X+alt}", "${X:?msg}", "${X?msg}", "\"${X:-d}\"", "\"${X:+alt}\"", "\"${X-d}\"", "\"${X+alt}\""];
     let mut ascripts: Vec<(String, String)> = vec![];
     for (tn, setup) in targets {
-        let x = if tn.starts_with("positional") { setup.rsplit('=').next().unwrap().to_string() } else { "T[@]".to_string() };
+        let x = if tn.starts_with("positional") { setup.rsplit('=').next().unwrap().to_string() } else if tn.contains("-star") { "T[*]".to_string() } else { "T[@]".to_string() };
         let mut s = String::from("set -f\n");
         for (k, f) in aforms.iter().enumerate() {
-            let f = if *f == "${!X}" && !tn.starts_with("positional") { "${!T[@]}".to_string() } else { f.replace('X', &x) };
+            let f = if *f == "${!X}" && !tn.starts_with("positional") { format!("${{!{x}}}") } else { f.replace('X', &x) };
             let setup_cmd = if tn.starts_with("positional") { setup.rsplit_once(';').unwrap().0.to_string() } else { setup.to_string() };
             s.push_str(&format!("echo \"#{k}\"\n( {setup_cmd}; vargs {f} ); echo \"s=$?\"\n"));
         }
